@@ -111,7 +111,7 @@ def native_replay(inst, q, workdir, inputs=None, run_timeout=120):
     cfgflags = ["-fsigned-char" if inst.cfg[0] == "s" else "-funsigned-char"]
     ndebug = [] if "d" in inst.cfg else ["-DNDEBUG"]
     inc = ["-I" + core.REPO + "/include", "-iquote", core.REPO + "/src", "-I" + VERIF + "/spec",
-           "-I" + VERIF + "/harness", "-I" + VERIF + "/stubs", "-I" + VERIF + "/golden", "-I" + workdir, "-I" + os.path.join(workdir, inst.cfg)]
+           "-I" + VERIF + "/harness", "-I" + VERIF + "/stubs", "-I" + VERIF + "/golden"] + ["-I" + d for d in getattr(inst, "gen_dirs", [])]
     alias = []
     srcs = []
     # which file-local symbols does the harness use?
